@@ -38,6 +38,7 @@ CONSTANTS
   SnapChunk,      \* logCompactionBatchSize (bytes per snapshot chunk)
   Journal,        \* nodes keep a file journal (and can be crashed / restarted)
   DumpFile,       \* nodes keep their snapshot in a dump file (else in memory)
+  Fork,           \* the dump file is written by a forked child process (useFork) while the node goes on
   QuietCids,      \* ids of commands submitted during a quiet period (C05: they must succeed)
   VersionedCids,  \* ids of calls to a method that exists in several code versions
   Raisers,        \* ids of regular commands whose replicated method raises when executed (on every replica)
@@ -98,7 +99,8 @@ InitNode(n) ==
    force |-> FALSE, lse |-> -1, needLoad |-> TRUE, serPid |-> 0, serId |-> 0,
    snap |-> "none", trans |-> <<>>, incoming |-> [has |-> FALSE],
    rocnt |-> 0, roid |-> <<>>, metaCommit |-> 1,
-   names |-> 0, codeVer |-> 2]    \* code versions (C17): version the method-name table was built for / highest version of the node's code
+   names |-> 0, codeVer |-> 2,
+   child |-> [st |-> "none"]]     \* the forked dump writer as the operating system sees it: none / run / ok / fail    \* code versions (C17): version the method-name table was built for / highest version of the node's code
 
 Init ==
   /\ node = [n \in Nodes |-> IF n \in Voters0 \cup Observers THEN InitNode(n) ELSE [alive |-> FALSE]]
@@ -424,8 +426,15 @@ QueueStep(x, n) ==
 
 CompactStep(x, n, orc) ==
   LET s == x.s
-      st == IF s.serPid = -1 THEN "SUCCESS" ELSE IF s.serPid = -2 THEN "FAILED" ELSE "NOT"
-      s1 == IF st # "NOT" THEN [s EXCEPT !.serPid = 0, !.trans = <<>>] ELSE s
+      st == IF Fork /\ DumpFile
+            THEN (IF s.serPid # 1 THEN "NOT"
+                  ELSE IF s.child.st = "run" THEN "SERIALIZING" ELSE IF s.child.st = "ok" THEN "SUCCESS" ELSE "FAILED")
+            ELSE (IF s.serPid = -1 THEN "SUCCESS" ELSE IF s.serPid = -2 THEN "FAILED" ELSE "NOT")
+      \* os.waitpid reaps the child; only a successful one resets the transfers in progress
+      s1 == IF st \in {"SUCCESS", "FAILED"}
+            THEN [s EXCEPT !.serPid = 0, !.child = [st |-> "none"],
+                           !.trans = IF st = "SUCCESS" \/ ~(Fork /\ DumpFile) THEN <<>> ELSE @]
+            ELSE s
       s2 == IF st = "SUCCESS" THEN [s1 EXCEPT !.log = DeleteTo(s1, s1.serId), !.lse = s1.serId] ELSE s1
   IN IF st # "NOT" THEN WithS(x, s2)
      ELSE IF Len(s2.log) <= CompactMin /\ ~s2.force THEN WithS(x, s2)
@@ -437,8 +446,11 @@ CompactStep(x, n, orc) ==
                                   \* the member set is the CURRENT view: it includes membership entries appended after the
                                   \* snapshot position (known finding KF6); remember whether there were any
                                   ahead |-> \E q \in 1..Len(s3.log) : s3.log[q].idx > la[2].idx /\ IsMemb(s3.log[q].cmd)]
-                      s4 == [s3 EXCEPT !.serId = la[1].idx, !.snap = orc.sid, !.serPid = -1]
-                  IN [WithS(x, s4) EXCEPT !.news = Append(@, [sid |-> orc.sid, content |-> content])]
+                  IN IF Fork /\ DumpFile
+                     THEN \* the child holds a copy of the state as of now; the file changes when it finishes (ChildDone)
+                          WithS(x, [s3 EXCEPT !.serId = la[1].idx, !.serPid = 1, !.child = [st |-> "run", content |-> [content EXCEPT !.size = 0]]])
+                     ELSE LET s4 == [s3 EXCEPT !.serId = la[1].idx, !.snap = orc.sid, !.serPid = -1]
+                          IN [WithS(x, s4) EXCEPT !.news = Append(@, [sid |-> orc.sid, content |-> content])]
 
 (* mt: the once-per-second timer of the journal fires in this tick and stores the commit index in .meta *)
 TickCtx(n, adv, cut, orc, ord, mt) ==
@@ -738,6 +750,18 @@ RestartNode(n, d) ==
 Restart(n) ==
   /\ Journal /\ ~node[n].alive /\ "disk" \in DOMAIN node[n]
   /\ node' = [node EXCEPT ![n] = RestartNode(n, node[n].disk)]
+  /\ UNCHANGED <<chan, alive, up, cbs, nexc, snaps>>
+
+(* the forked dump writer finishes: the dump file is replaced atomically by the snapshot of the state at fork time *)
+ChildDone(n, orc) ==
+  /\ node[n].alive /\ node[n].child.st = "run"
+  /\ node' = [node EXCEPT ![n] = [@ EXCEPT !.child = [st |-> "ok"], !.snap = orc.sid]]
+  /\ snaps' = AddSnaps(snaps, <<[sid |-> orc.sid, content |-> [node[n].child.content EXCEPT !.size = orc.size]]>>)
+  /\ UNCHANGED <<chan, alive, up, cbs, nexc>>
+(* ... or is killed before the rename: the dump file stays as it was *)
+ChildKilled(n) ==
+  /\ node[n].alive /\ node[n].child.st = "run"
+  /\ node' = [node EXCEPT ![n].child = [st |-> "fail"]]
   /\ UNCHANGED <<chan, alive, up, cbs, nexc, snaps>>
 
 SubmitOpOld(n, c, z, wantCb) ==
